@@ -1017,6 +1017,21 @@ func genLogRoundTrips(run *lib.Run, rng *lib.Rand, n int) {
 
 func corpus() []jcase {
 	return []jcase{
+		// instance properties derived from the data (roi z range, image extents): every write is followed by a
+		// restart at once -- a re-post over the same z range, a wider, a narrower and a disjoint one, a delete,
+		// a post after the delete, the same at a child version; image blocks at several offsets
+		{Kind: "history", Name: "derived-properties", Ops: []hop{
+			{Op: "roipost", V: 1, Val: "[[100,1,2,4],[101,1,2,4],[103,0,0,1]]"}, {Op: "restart"},
+			{Op: "roipost", V: 1, Val: "[[100,2,3,3],[103,5,1,2]]"}, {Op: "restart", Kill: true},
+			{Op: "roipost", V: 1, Val: "[[100,2,3,3],[102,5,1,2],[103,5,1,2]]"}, {Op: "restart"},
+			{Op: "roipost", V: 1, Val: "[[98,0,0,0],[105,0,0,0]]"}, {Op: "restart"},
+			{Op: "roipost", V: 1, Val: "[[101,0,0,0]]"}, {Op: "restart", Kill: true},
+			{Op: "imgpost", V: 1, N: 0, Key: "9"}, {Op: "restart"}, {Op: "imgpost", V: 1, N: 3, Key: "17"}, {Op: "restart", Kill: true},
+			{Op: "imgpost", V: 1, N: 3, Key: "18"}, {Op: "restart"},
+			{Op: "roidel", V: 1}, {Op: "restart"}, {Op: "roipost", V: 1, Val: "[[-3,0,0,0],[0,0,0,0]]"}, {Op: "restart"},
+			{Op: "commit", V: 1}, {Op: "newversion", V: 1},
+			{Op: "roipost", V: 2, Val: "[[-3,1,1,1],[0,1,1,1]]"}, {Op: "restart"}, {Op: "roipost", V: 2, Val: "[[200,1,1,1]]"}, {Op: "restart"},
+			{Op: "imgpost", V: 2, N: 4, Key: "33"}, {Op: "restart", Kill: true}}},
 		{Kind: "history", Name: "kv-branches", Ops: []hop{
 			{Op: "put", V: 1, Key: "a", Val: "1"}, {Op: "note", V: 1, Val: "root note"}, {Op: "log", V: 1, Val: "entry"},
 			{Op: "commit", V: 1}, {Op: "newversion", V: 1}, {Op: "branch", V: 1, Branch: "b1"},
